@@ -20,5 +20,25 @@ def dequeue (f : Fifo) : Stat × Option Nat × Fifo :=
   | x :: xs => (.ok, some x, { f with items := xs })
 
 def size (f : Fifo) : Nat := f.items.length
+
+/-- operations of a ring-buffer history -/
+inductive Op where
+  | enqueue (x : Nat)
+  | dequeue
+  deriving Repr, DecidableEq
+
+/-- what a call returns: status (none for `void` functions) and out-value -/
+structure Out where
+  st  : Option Stat
+  val : Option Nat
+  deriving Repr, DecidableEq
+
+def step (f : Fifo) : Op → Out × Fifo
+  | .enqueue x => (⟨none, none⟩, f.enqueue x)
+  | .dequeue   => let r := f.dequeue; (⟨some r.1, r.2.1⟩, r.2.2)
+
+def run (f : Fifo) : List Op → List Out × Fifo
+  | []        => ([], f)
+  | op :: ops => let r := f.step op; let rs := run r.2 ops; (r.1 :: rs.1, rs.2)
 end Fifo
 end CC.Spec
